@@ -153,3 +153,209 @@ func consumedOften(c *Checked) bool {
 	}
 	return false
 }
+
+func hasProbe(names ...string) func(c *Checked) bool {
+	return func(c *Checked) bool {
+		for _, n := range names {
+			if c.Probes[n] == 0 {
+				return false
+			}
+		}
+		return true
+	}
+}
+
+func init() {
+	noFaults := func(g *genCtx) { g.ft.FaultRate, g.ft.FaultInv = 0, 0 }
+	someFaults := func(g *genCtx) {
+		g.ft.FaultRate = []float64{0, 0, 0.05, 0.25}[g.r.Intn(4)]
+		g.ft.FaultInv = g.ft.FaultRate / 2
+	}
+	register(&ClassDef{
+		Prop: "C01",
+		Rule: "history with a successful Invoke that executed at least 3 functions and resolved at least one argument across a scope boundary",
+		Gen: genGeneric("C01", func(g *genCtx) {
+			someFaults(g)
+			g.ft.PAvail = 0.95
+			if g.ft.MaxScopes < 2 {
+				g.ft.MaxScopes = 2
+			}
+		}, Mix{Scope: 3, Provide: 10, Decorate: 3, Invoke: 8, VisStr: 0}),
+		Eval:       evalSimple("C01", hasProbe("executed>=3_ok", "arg_cross_scope")),
+		WantProbes: []string{"executed>=3_ok", "arg_cross_scope", "arg_from_decorator", "optional_over_gap", "group_feeders>=3"},
+	})
+	register(&ClassDef{
+		Prop: "C03",
+		Rule: "history with an Invoke whose dependency closure has at least 2 functions while at least 2 registered functions in at least 2 scopes are outside it (bystanders)",
+		Gen: genGeneric("C03", func(g *genCtx) {
+			noFaults(g)
+			g.ft.PAvail = 0.9
+			if g.ft.MaxScopes < 2 {
+				g.ft.MaxScopes = 2
+			}
+		}, Mix{Scope: 3, Provide: 12, Decorate: 3, Invoke: 6, VisStr: 2}),
+		Eval:       evalSimple("C03", hasProbe("closure>=2", "bystanders>=2")),
+		WantProbes: []string{"closure>=2", "bystanders>=2", "soft_nonempty"},
+	})
+	register(&ClassDef{
+		Prop: "C04",
+		Rule: "history with an Invoke over a gap: a missing provider at depth >= 2 of the closure, or an optional dependency whose provider is unavailable",
+		Gen: genGeneric("C04", func(g *genCtx) {
+			someFaults(g)
+			g.ft.PAvail = []float64{0.6, 0.8, 0.95}[g.r.Intn(3)]
+			g.ft.Optional, g.ft.Objects = true, true
+		}, Mix{Scope: 2, Provide: 10, Decorate: 2, Invoke: 9, VisStr: 0}),
+		Eval: evalSimple("C04", func(c *Checked) bool {
+			return c.Probes["optional_over_gap"] > 0 || c.Probes["missing_deep"] > 0
+		}),
+		WantProbes: []string{"optional_over_gap", "missing_deep", "invoke_available", "invoke_missing_dependency"},
+	})
+	register(&ClassDef{
+		Prop: "C08",
+		Rule: "history over at least 3 scopes with a shadowed key (provided in two enclosing scopes) and a scope created after a Provide to one of its ancestors, with at least one argument resolved across a scope boundary",
+		Gen: genGeneric("C08", func(g *genCtx) {
+			noFaults(g)
+			g.ft.Decorators = false
+			g.ft.MaxScopes = g.r.Range(3, 6)
+			g.ft.MaxDepth = g.r.Range(1, 3)
+			g.ft.Export = g.r.P(0.7)
+			g.ft.PAvail = 0.9
+			g.ft.NT = g.r.Range(3, 5)
+		}, Mix{Scope: 4, Provide: 10, Decorate: 0, Invoke: 8, VisStr: 0}),
+		Eval: evalSimple("C08", func(c *Checked) bool {
+			return len(c.M.S) >= 3 && c.Probes["nearest_shadowed"] > 0 && c.Probes["scope_after_provide"] > 0 && c.Probes["arg_cross_scope"] > 0
+		}),
+		WantProbes: []string{"nearest_shadowed", "scope_after_provide", "arg_cross_scope", "export_seen_from_sibling"},
+	})
+	register(&ClassDef{
+		Prop: "C09",
+		Rule: "history in which one type is provided under at least two different keys (unnamed / named / grouped / As interface) and at least one duplicate registration was attempted",
+		Gen: genGeneric("C09", func(g *genCtx) {
+			noFaults(g)
+			g.ft.NT = g.r.Range(2, 4)
+			g.ft.Names = []string{"n1", "n2"}
+			g.ft.Groups = []string{"g1", "g2"}
+			g.ft.As = true
+			g.ft.Objects = true
+			g.ft.PDup = 0.4
+		}, Mix{Scope: 2, Provide: 12, Decorate: 1, Invoke: 8, VisStr: 0}),
+		Eval:       evalSimple("C09", hasProbe("type_under_two_keys", "duplicate_attempted")),
+		WantProbes: []string{"type_under_two_keys", "duplicate_attempted", "as_value_delivered"},
+	})
+	register(&ClassDef{
+		Prop: "C10",
+		Rule: "history in which a non-soft group parameter received members of at least 3 feeders, or a feeder was added between two requests of the same group",
+		Gen: genGeneric("C10", func(g *genCtx) {
+			someFaults(g)
+			g.ft.Groups = []string{"g1", "g2"}[:g.r.Range(1, 2)]
+			g.ft.Objects = true
+			g.ft.Flatten = true
+			g.ft.NT = g.r.Range(2, 4)
+			g.ft.GroupDecs = g.r.P(0.2)
+		}, Mix{Scope: 3, Provide: 12, Decorate: 1, Invoke: 9, VisStr: 0}),
+		Eval: evalSimple("C10", func(c *Checked) bool {
+			return c.Probes["group_feeders>=3"] > 0 || c.Probes["feeder_added_between"] > 0
+		}),
+		WantProbes: []string{"group_feeders>=3", "group_empty", "feeder_added_between"},
+	})
+	register(&ClassDef{
+		Prop: "C11",
+		Rule: "history in which a soft group parameter was delivered non-empty, or next to a field of the same object whose provider feeds the group",
+		Gen: genGeneric("C11", func(g *genCtx) {
+			noFaults(g)
+			g.ft.Groups = []string{"g1", "g2"}[:g.r.Range(1, 2)]
+			g.ft.Objects, g.ft.Soft = true, true
+			g.ft.GroupDecs = false
+			g.ft.NT = g.r.Range(2, 4)
+		}, Mix{Scope: 2, Provide: 12, Decorate: 1, Invoke: 10, VisStr: 0}),
+		Eval: evalSimple("C11", func(c *Checked) bool {
+			return c.Probes["soft_nonempty"] > 0 || c.Probes["soft_sibling_field_feeder"] > 0
+		}),
+		WantProbes: []string{"soft_nonempty", "soft_sibling_field_feeder"},
+	})
+	register(&ClassDef{
+		Prop: "C12",
+		Rule: "history in which an argument was produced by a decorator registered in an ancestor of the consumer's scope, or by a decorator whose own input came from another decorator",
+		Gen: genGeneric("C12", func(g *genCtx) {
+			someFaults(g)
+			g.ft.Decorators = true
+			g.ft.GroupDecs = g.r.P(0.6)
+			g.ft.PAvail = 0.95
+			g.ft.NT = g.r.Range(2, 5)
+			g.ft.NamedSlice = g.r.P(0.3)
+		}, Mix{Scope: 3, Provide: 8, Decorate: 7, Invoke: 9, VisStr: 0}),
+		Eval: evalSimple("C12", func(c *Checked) bool {
+			return c.Probes["deco_from_ancestor_scope"] > 0 || c.Probes["deco_nested"] > 0
+		}),
+		WantProbes: []string{"deco_from_ancestor_scope", "deco_nested", "group_decorated", "arg_from_decorator"},
+	})
+	register(&ClassDef{
+		Prop: "C13",
+		Rule: "history in which at least two different failure sources surfaced (injected error / injected panic in a dependency or in the invoked function / a dig-originated failure)",
+		Gen: genGeneric("C13", func(g *genCtx) {
+			g.ft.FaultRate = []float64{0.1, 0.25, 0.4}[g.r.Intn(3)]
+			g.ft.FaultInv = 0.3
+			g.ft.PAvail = 0.85
+			g.ft.Wild = []float64{0, 0.1}[g.r.Intn(2)]
+		}, defaultMix),
+		Eval: evalSimple("C13", func(c *Checked) bool {
+			n := 0
+			for _, p := range []string{"err_root_injected", "err_root_panic", "err_dig_originated", "invoke_fn_error", "invoke_fn_panic"} {
+				if c.Probes[p] > 0 {
+					n++
+				}
+			}
+			return n >= 2
+		}),
+		WantProbes: []string{"err_root_injected", "err_root_panic", "err_dig_originated", "invoke_fn_error", "invoke_fn_panic"},
+	})
+	register(&ClassDef{
+		Prop: "C20",
+		Rule: "history in which a callback fired after a failing execution or with a non-zero simulated runtime while a dependency also spent simulated time",
+		Gen: genGeneric("C20", func(g *genCtx) {
+			g.ft.FaultRate = []float64{0, 0.1, 0.3}[g.r.Intn(3)]
+			g.ft.Callbacks, g.ft.Slow = true, true
+			g.ft.PAvail = 0.95
+		}, defaultMix),
+		Eval: evalSimple("C20", func(c *Checked) bool {
+			return c.Probes["callback_error"]+c.Probes["callback_panic"] > 0 || c.Probes["callback_runtime_checked"] > 0
+		}),
+		WantProbes: []string{"callback_fired", "callback_error", "callback_panic", "callback_runtime_checked"},
+	})
+}
+
+func init() {
+	register(&ClassDef{
+		Prop: "C05",
+		Rule: "history in which a cycle was reported by dig, or a constructor graph one edge short of a cycle was accepted across at least 2 scopes",
+		Gen: genGeneric("C05", func(g *genCtx) {
+			g.ft.FaultRate, g.ft.FaultInv = 0, 0
+			g.ft.Wild = []float64{0.15, 0.4, 0.8}[g.r.Intn(3)]
+			g.ft.NT = g.r.Range(2, 5)
+			g.ft.Decorators = g.r.P(0.15)
+			g.ft.MaxScopes = g.r.Range(1, 5)
+			g.ft.PAvail = 0.9
+			g.h.Cfg.Defer = g.r.P(0.35)
+			g.m.Defer = g.h.Cfg.Defer
+			g.ft.As = false
+		}, Mix{Scope: 3, Provide: 12, Decorate: 1, Invoke: 7, VisStr: 0}),
+		Eval: evalSimple("C05", func(c *Checked) bool {
+			return c.Probes["cycle_reported"] > 0 || c.Probes["near_cycle_accepted"] > 0
+		}),
+		WantProbes: []string{"cycle_reported", "near_cycle_accepted", "runtime_cycle"},
+	})
+	register(&ClassDef{
+		Prop: "C06",
+		Rule: "history with a rejected Provide or Decorate followed by at least 2 operations that touch one of its keys",
+		Gen: genGeneric("C06", func(g *genCtx) {
+			g.ft.FaultRate, g.ft.FaultInv = 0, 0
+			g.ft.Wild = []float64{0, 0.2, 0.5}[g.r.Intn(3)]
+			g.ft.PDup = 0.35
+			g.ft.NT = g.r.Range(2, 5)
+			g.ft.Decorators = true
+			g.ft.PAvail = 0.9
+		}, Mix{Scope: 3, Provide: 10, Decorate: 5, Invoke: 8, VisStr: 1}),
+		Eval:       evalSimple("C06", hasProbe("reuse_after_reject")),
+		WantProbes: []string{"reject_dup", "reject_cycle", "reject_decorate", "reuse_after_reject"},
+	})
+}
